@@ -796,7 +796,7 @@ def main():
         "raft.pendingConfIndex is not visible through RawNode.Status: the lockstep replay observes it through its effect (a refused conf change is appended as an empty normal entry); a restarted node starts from the genesis configuration (raftsim's storage has no snapshot in these runs) and re-applies every committed conf change",
         "proposal forwarding disabled, MaxInflightMsgs=256, MaxSizePerMsg unlimited or one entry; ReadIndex and leader transfer not exercised",
         "election timeouts are not simulated with the package RNG: Campaign() is an explicit event, followers tick with TickQuiesced",
-        "ReadyWindow: the node under test is a follower that is never asked for its vote (five voters, the four others elect the leaders); leaders' logs per behaviour from a fixed family (quick: 2 families of 2 leaders; thorough: 3 families of 2 and 4 families of 3 leaders replayed, all 127 families with logs <= 3 model-checked); log compaction by the application and the node's own leadership are outside this specification",
+        "ReadyWindow: the node under test is a follower that is never asked for its vote (five voters, the four others elect the leaders); leaders' logs per behaviour from a fixed family (quick: 2 families of 2 leaders; thorough: 3 families of 2 leaders replayed; 4 families of 3 leaders and all 127 families with logs <= 3 model-checked); log compaction by the application and the node's own leadership are outside this specification",
         "a panic raised by one of the library's own log-safety assertions (tocommit out of range, conflict with committed entry, ...) in a legal schedule counts as a violation (kind safety-assertion-panic); never observed on the unchanged tree",
     ]
     if divergences or panic_samples or b2_div or w_div:
